@@ -61,7 +61,7 @@ theorem lanczosCore_first {vstart : List α} {numiter : Nat} {st : LState α ρ}
   have h0 : LState.Sized (α := α) (ρ := ρ)
       { alpha := [], beta := [], V := [vdiv vstart.length vstart (RealLike.ofReal (dnorm vstart))] } 0 0 (0 + 1) := by
     simp [LState.Sized]
-  have := lanczosLoop_first Afun dnorm vstart.length (numiter - 1) 0 _ h0
+  have := lanczosLoop_first Afun dnorm vstart.length (min numiter vstart.length - 1) 0 _ h0
   split
   · exact this
   · exact this
@@ -91,7 +91,7 @@ theorem arnoldiCore_first {vstart : List α} {numiter : Nat} {st : AState α ρ}
   have h0 : AState.Sized (α := α) (ρ := ρ)
       { cols := [], sub := [], V := [vdiv vstart.length vstart (RealLike.ofReal (dnorm vstart))] } 0 0 (0 + 1) := by
     simp [AState.Sized]
-  have := arnoldiLoop_first Afun dnorm vstart.length (numiter - 1) 0 _ h0
+  have := arnoldiLoop_first Afun dnorm vstart.length (min numiter vstart.length - 1) 0 _ h0
   split
   · exact this
   · exact this
